@@ -106,6 +106,8 @@ SCALARS = [
     ("treeLeafPoolDivisor", "details/TreeNode.h", r"static const size_t leafMemPoolCount = maxCapacity / \((\d+) \* capacityStep\) \+ 1;", "Node: leafMemPoolCount = maxCapacity / (this * capacityStep) + 1"),
     ("treeSplitDivisor", "details/TreeNode.h", r"size_t splitItemIndex = itemCount / (\d+);", "GetSplitItemIndex: itemCount / this"),
     ("treeSplitModulus", "details/TreeNode.h", r"if \(itemCount % (\d+) == 0 && splitItemIndex > newItemIndex\)", "GetSplitItemIndex: one less when itemCount % this == 0 and the new item goes left"),
+    ("treeRelocNodesIntCap", "TreeSet.h", r"typedef internal::NestedArrayIntCap<(\d+), Node\*, MemManagerPtr> Nodes;", "TreeSet::Relocator: internal capacity of mOldNodes / mNewNodes (no heap block up to this many nodes)"),
+    ("treeRelocSegmentsIntCap", "TreeSet.h", r"typedef internal::NestedArrayIntCap<(\d+), Segment, MemManagerPtr> Segments;", "TreeSet::Relocator: internal capacity of mSrcSegments / mDstSegments"),
     # ---- C07: DataIndexes.h (MultiHash raw segments), DataTable.h (index selection of Select)
     ("dtLogInitialSegmentSize", "DataIndexes.h", r"static const size_t logInitialSegmentSize = (\d+);", "MultiHash: the raws of one key are kept sorted per segment of SegmentedArraySettings<sqrt, this>"),
     ("dtSegMaskShift", "DataIndexes.h", r"\(rawCount & \(\((\d+) << logInitialSegmentSize\) - 1\)\) == 0", "MultiHash::pvAdd: boundary pre-test rawCount & ((this << logInitialSegmentSize) - 1)"),
